@@ -481,6 +481,9 @@ func c18Path(c *C18Case) Verdict {
 		// a closepath right after a closepath closes an empty sub-path: drawing it or not is the same outline
 		var w2 []interface{}
 		for _, w := range want {
+			if a, ok := w.(c18Arc); ok && a.x0 == a.x1 && a.y0 == a.y1 {
+				continue // an arc between identical points is omitted: it draws nothing between two closepaths
+			}
 			if s, ok := w.(c18Seg); ok && s.op == "Z" && len(w2) > 0 {
 				if p, ok := w2[len(w2)-1].(c18Seg); ok && p.op == "Z" {
 					continue
